@@ -151,8 +151,12 @@ def Sendable (v : PVal) : Bool := wrapperOk v && wireOk v.plain
 
 /-! ### State evolution -/
 
-def next (d : SDecl) (s : SSt) : Op → SSt
-  | .export o => { s with attached := fun o' => o' = o || s.attached o' }
+/-- `outs` is what the operation was observed to produce; it matters only for `export`: an instance counts as
+exported once an `exportObject` call for it returned (the call may raise, e.g. for an object with a property
+that cannot be sent yet - then nothing changes). -/
+def next (d : SDecl) (s : SSt) (op : Op) (outs : List Out) : SSt :=
+  match op with
+  | .export o => if outs = [.done] then { s with attached := fun o' => o' = o || s.attached o' } else s
   | .assign o a v =>
     match d.byAttr a with
     | some sp => s.write o sp.iface sp.name v
@@ -164,13 +168,13 @@ def next (d : SDecl) (s : SSt) : Op → SSt
   | .get _ _ _ => s
   | .getAll _ _ => s
 
-def runFrom (d : SDecl) (s : SSt) : List Op → SSt
+def runFrom (d : SDecl) (s : SSt) : List (Op × List Out) → SSt
   | [] => s
-  | op :: h => runFrom d (next d s op) h
+  | (op, outs) :: h => runFrom d (next d s op outs) h
 
 /-- The map after a history: `(run d h).val o i p` is the value most recently assigned to (i, p) of instance
 `o`, locally or by a successful remote Set. -/
-def run (d : SDecl) (h : List Op) : SSt := runFrom d SSt.init h
+def run (d : SDecl) (h : List (Op × List Out)) : SSt := runFrom d SSt.init h
 
 /-! ### What the statement allows -/
 
